@@ -411,6 +411,36 @@ def unfold_hlk(E, D, k, depth=1):
             unfold_hlk(E, X, kk, depth - 1)
 
 
+hneed = z3.Function("hneed", HNode, SeqI, SeqI, BoolS)     # the hashed node h is dereferenced by a walk of key k below D
+
+
+def ref_needed(E, r, k, h):
+    """following the reference r with the rest k of the key dereferences the hashed node h"""
+    return z3.If(HRef.is_RHash(r),
+                 z3.And(HRef.rhash(r) != blank_node_hash(E),
+                        z3.Or(HRef.rhash(r) == h, hneed(hnode_of_hash(HRef.rhash(r)), k, h))),
+                 z3.If(HRef.is_REmb(r), hneed(HRef.remb(r), k, h), z3.BoolVal(False)))
+
+
+def unfold_hneed(E, D, k, h):
+    """definitional step of hneed at (D, k): an extension whose path the key runs through needs what its child needs
+    (and the child itself when it is hashed), a branch the child selected by the first nibble; nothing else"""
+    D, k = z3.simplify(D), z3.simplify(k)
+    ep = HNode.epath(D)
+    kt = tail(k, 1)
+    br = z3.BoolVal(False)
+    for i in reversed(range(16)):
+        br = z3.If(k[0] == i, ref_needed(E, child(D, i), kt, h), br)
+    body = z3.If(HNode.is_HExt(D), z3.And(z3.PrefixOf(ep, k), ref_needed(E, HNode.echild(D), tail(k, z3.Length(ep)), h)),
+                 z3.If(HNode.is_HBranch(D), z3.And(z3.Length(k) > 0, br), z3.BoolVal(False)))
+    E.assume(mk_bool(hneed(D, k, h) == body))
+    # a branch read / written at a symbolic nibble (see unfold_hlk): the selected reference decides
+    for (Dr, jr, chain) in E.ghost.get("sym_reads", []):
+        if Dr.eq(D):
+            E.assume(mk_bool(z3.Implies(z3.And(z3.Length(k) > 0, k[0] == jr),
+                                        hneed(D, k, h) == ref_needed(E, chain, kt, h))))
+
+
 class HexDbInvariant:
     """store invariant: every entry is rlp(node) of a well-formed node under its keccak"""
 
